@@ -107,8 +107,19 @@ def forbidden_scan():
     return bad
 
 
+def write_coqproject():
+    files = []
+    for d in ("Model", "Gen", "Proofs", "Props"):
+        files += sorted(os.path.relpath(f, COQ) for f in glob.glob(os.path.join(COQ, d, "*.v")))
+    new = "-Q . IpfsLog\n" + "\n".join(files) + "\n"
+    cp = os.path.join(COQ, "_CoqProject")
+    if not os.path.exists(cp) or open(cp).read() != new:
+        open(cp, "w").write(new)
+
+
 def coq_build(log):
     """make -k the whole development.  Returns dict file.v -> error text for files that failed."""
+    write_coqproject()
     mk = os.path.join(COQ, "Makefile.coq")
     cp = os.path.join(COQ, "_CoqProject")
     if not os.path.exists(mk) or os.path.getmtime(mk) < os.path.getmtime(cp):
